@@ -39,20 +39,24 @@ Wide == Case.wide
 
 R0 == MSub(Case.b, MMul(Case.A, Case.x0))
 OptOf(cc, mm) == GmresOpt(GCases[cc].A, GCases[cc].b, GCases[cc].x0, mm)
-WOptOf(cc, mm) == WGmresOpt(GCases[cc].A, GCases[cc].b, GCases[cc].x0, mm)
 Gal(mm) == GalerkinOpt(Case.A, Case.b, Case.x0, mm)
 KD == KDim(Case.A, R0)
 
-Init == /\ c \in 1..Len(GCases) /\ m = 0
+\* wide cases start one step earlier (m = -1, nothing evaluated yet): TLC evaluates the invariants of initial states
+\* on a single thread, the wide arithmetic belongs to the actions (worker threads)
+Init == /\ c \in 1..Len(GCases) /\ m = (IF GCases[c].wide THEN -1 ELSE 0)
         /\ o = [x |-> GCases[c].x0, rho2 |-> QInt(0), j |-> 0]      \* placeholder: m = 0 is evaluated by Opt(0)
         /\ prev = QInt(0)
 Next == /\ m < N + 2 /\ m' = m + 1 /\ c' = c
-        /\ o' = IF GCases[c].wide THEN WOptOf(c, m + 1) ELSE OptOf(c, m + 1)
-        /\ prev' = IF GCases[c].wide THEN (IF m = 0 THEN WOptOf(c, 0) ELSE o)
+        /\ o' = IF GCases[c].wide
+                THEN IF m >= 0 /\ Min2(m + 1, o.kd) = o.j
+                     THEN o        \* the optimum depends on m through j = min(m, KDim) only (m beyond KDim)
+                     ELSE WGmresOptKd(GCases[c].A, GCases[c].b, GCases[c].x0, m + 1, IF m = -1 THEN -1 ELSE o.kd)
+                ELSE OptOf(c, m + 1)
+        /\ prev' = IF GCases[c].wide THEN o
                    ELSE IF m = 0 THEN Norm2(R0) ELSE o.rho2
 Spec == Init /\ [][Next]_vars
 Opt(mm) == IF mm = 0 THEN GmresOpt(Case.A, Case.b, Case.x0, 0) ELSE o
-WOpt(mm) == IF mm = 0 THEN WOptOf(c, 0) ELSE o
 
 ---------------------------------------------------------------------------
 (* wide (badly scaled) cases *)
@@ -60,7 +64,9 @@ WA == WOfMat(Case.A)
 Wb == WVecOfMat(Case.b)
 Wx0 == WVecOfMat(Case.x0)
 WR0 == WVecSub(Wb, WMatVec(WA, Wx0))
-WKD == WKDim(WA, WR0)
+\* the dimension of the full Krylov space: evaluated in the first step (m = 0) and carried along; a wrong value
+\* cannot survive (too small: rho2 # 0 at m = kd; too large: det Gram(A K_j) = 0, i.e. d2 = 0)
+WKD == o.kd
 WRho0 == WDot(WR0, WR0)
 
 WCatalogOK ==
@@ -70,43 +76,43 @@ WCatalogOK ==
     /\ ~WIsZero(WDet(WA))
     /\ Case.kdim = WKD
 \* n2_m / d2_m <= ||r0||^2 with d2_m > 0
-WResidualBound == LET w == WOpt(m) IN w.d2.s = 1 /\ w.n2.s >= 0 /\ WLeq(w.n2, WMul(WRho0, w.d2))
+WResidualBound == LET w == o IN w.d2.s = 1 /\ w.n2.s >= 0 /\ WLeq(w.n2, WMul(WRho0, w.d2))
 \* n2_m / d2_m <= n2_(m-1) / d2_(m-1)
 WMonotone == m >= 1 => WLeq(WMul(o.n2, prev.d2), WMul(prev.n2, o.d2))
-WZeroIffExhausted == WIsZero(WOpt(m).n2) <=> (m >= WKD)
-WPrefixIsKrylovDim == WOpt(m).j = Min2(m, WKD)
+WZeroIffExhausted == WIsZero(o.n2) <=> (m >= WKD)
+WPrefixIsKrylovDim == o.j = Min2(m, WKD)
 \* on the exported iterate x_m = xn / xd: the residual rn / xd is orthogonal to A K_j (first-order optimality,
 \* independent of Cramer's rule) and its squared norm is the determinant ratio: |rn|^2 * d2 = n2 * xd^2
 WCertificates ==
-    LET w == WOpt(m)
+    LET w == o
         rn == WVecSub(WVecScale(w.xd, Wb), WMatVec(WA, w.xn))
     IN /\ w.xd.s = 1
        /\ WMul(WDot(rn, rn), w.d2) = WMul(w.n2, WMul(w.xd, w.xd))
        /\ (w.j >= 1 => WVecIsZero(WMatVec(WTr(WMatMul(WA, WKrylov(WA, WR0, w.j))), rn)))
 WWellFormed ==
-    LET w == WOpt(m) IN WOk(w.n2) /\ WOk(w.d2) /\ WOk(w.xd) /\ \A i \in 1..N: WOk(w.xn[i])
+    LET w == o IN WOk(w.n2) /\ WOk(w.d2) /\ WOk(w.xd) /\ \A i \in 1..N: WOk(w.xn[i])
 WOut ==
-    LET w == WOpt(m)
+    LET w == o
     IN [id |-> Case.id, m |-> m, n |-> N, wide |-> TRUE, kdim |-> WKD, j |-> w.j,
         n2 |-> WFlat(w.n2), d2 |-> WFlat(w.d2), r0 |-> WFlat(WRho0),
         xn |-> [i \in 1..N |-> WFlat(w.xn[i])], xd |-> WFlat(w.xd)]
 
 ---------------------------------------------------------------------------
 CatalogOK ==
-    IF Wide THEN WCatalogOK ELSE
+    IF Wide THEN (m >= 0 => WCatalogOK) ELSE
     /\ Case.A.r = Case.A.c /\ Case.A.d = 1 /\ Case.b.d = 1 /\ Case.x0.d = 1
     /\ Case.b.r = N /\ Case.b.c = 1 /\ Case.x0.r = N /\ Case.x0.c = 1
     /\ ~MIsSingular(Case.A)
     /\ Case.kdim = KD                      \* the harness's own exact pre-computation agrees
 
-ResidualBound == IF Wide THEN WResidualBound ELSE QLeqNN(Opt(m).rho2, Norm2(R0))
+ResidualBound == IF Wide THEN (m >= 0 => WResidualBound) ELSE QLeqNN(Opt(m).rho2, Norm2(R0))
 Monotone == IF Wide THEN WMonotone ELSE (m >= 1 => QLeqNN(o.rho2, prev))
-ZeroIffExhausted == IF Wide THEN WZeroIffExhausted ELSE (QIsZero(Opt(m).rho2) <=> (m >= KD))
-PrefixIsKrylovDim == IF Wide THEN WPrefixIsKrylovDim ELSE Opt(m).j = Min2(m, KD)
+ZeroIffExhausted == IF Wide THEN (m >= 0 => WZeroIffExhausted) ELSE (QIsZero(Opt(m).rho2) <=> (m >= KD))
+PrefixIsKrylovDim == IF Wide THEN (m >= 0 => WPrefixIsKrylovDim) ELSE Opt(m).j = Min2(m, KD)
 
 \* first-order optimality of the exported iterates (independent of the way they were computed)
 Certificates ==
-    IF Wide THEN WCertificates /\ WWellFormed ELSE
+    IF Wide THEN (m >= 0 => WCertificates /\ WWellFormed) ELSE
     LET j == Min2(m, KD) IN
     j >= 1 =>
       LET K == Krylov(Case.A, R0, j)
@@ -129,5 +135,5 @@ Out ==
         g == Gal(m)
     IN [id |-> Case.id, m |-> m, n |-> N, x |-> oo.x, rho2 |-> oo.rho2, rho2_0 |-> Norm2(R0), kdim |-> KD,
         j |-> oo.j, gdef |-> g.def, gx |-> g.x, grho2 |-> g.rho2]
-Emit == PrintT(ToJson(IF Wide THEN WOut ELSE Out))
+Emit == (Wide /\ m < 0) \/ PrintT(ToJson(IF Wide THEN WOut ELSE Out))
 =============================================================================
